@@ -1560,14 +1560,11 @@ impl<T: Storage> Raft<T> {
         // Scan all unapplied committed entries to find a config change.
         // Paginate the scan, to avoid a potentially unlimited memory spike.
         //
-        // If there is a pending snapshot, its index will be returned by
-        // `maybe_first_index`. Note that snapshot updates configuration
-        // already, so as long as pending entries don't contain conf change
-        // it's safe to start campaign.
-        let low = match self.raft_log.unstable.maybe_first_index() {
-            Some(idx) => idx,
-            None => self.raft_log.applied + 1,
-        };
+        // If there is a snapshot that is pending or persisted but not yet reported
+        // applied, the log starts right after it (`first_index`). Note that snapshot
+        // updates configuration already, so as long as the entries behind it don't
+        // contain conf change it's safe to start campaign.
+        let low = cmp::max(self.raft_log.applied + 1, self.raft_log.first_index());
         let high = self.raft_log.committed + 1;
         let ctx = GetEntriesContext(GetEntriesFor::TransferLeader);
         if self.has_unapplied_conf_changes(low, high, ctx) {
